@@ -24,7 +24,7 @@ ENCODED = ["twisted.python.filepath:FilePath.child", "twisted.python.filepath:Fi
            "twisted.python.filepath:AbstractFilePath.descendant", "twisted.web.static:File.getChild",
            "twisted.web.static:File.createSimilarFile", "twisted.web.server:Request.process",
            "twisted.web.resource:getChildForRequest", "twisted.web.resource:Resource.getChildWithDefault"]
-BOUNDS = {"quick": {"n": 7, "d": 5, "u": 4, "k": 4}, "thorough": {"n": 9, "d": 7, "u": 6, "k": 5}}
+BOUNDS = {"quick": {"n": 7, "d": 5, "u": 4, "k": 3}, "thorough": {"n": 9, "d": 7, "u": 6, "k": 4}}
 B = {}
 BOUNDS_TEXT = ("parent fixed to /r/ab (sibling /r/abc in mind); child/preauthChild name of <= n arbitrary code "
                "points; descendant of <= 2 segments with <= d characters in total; request path '/' + <= u "
@@ -355,12 +355,11 @@ def _len_shards(name, key):
 
 def _menu_shards(tier):
     k = BOUNDS[tier]["k"]
-    out = [("len(toks) <= %d" % (k - 2),), ("len(toks) == %d" % (k - 1),)]
+    out = [("len(toks) <= %d" % (k - 1),)]
     if tier == "quick":
-        out += [("len(toks) == %d" % k, "toks[0] == %d" % a) for a in range(len(MENU))]
+        out += [("len(toks) == %d" % k, "%d <= toks[0] < %d" % (lo, lo + 3)) for lo in range(0, len(MENU), 3)]
     else:
-        out += [("len(toks) == %d" % k, "toks[0] == %d" % a, "toks[1] == %d" % c)
-                for a in range(len(MENU)) for c in range(len(MENU))]
+        out += [("len(toks) == %d" % k, "toks[0] == %d" % a) for a in range(len(MENU))]
     return out
 
 
